@@ -1,6 +1,6 @@
 ---------------------------- MODULE BitmapLoad ----------------------------
 (* Threaded loading of the allocation bitmaps: lib/ext2fs/rw_bitmaps.c, ext2fs_rw_bitmaps() (read side),
-   read_bitmaps_thread(), read_bitmaps_range_start(), read_bitmaps_range_end().
+   read_bitmaps_thread(), read_bitmaps_range_start(), read_bitmaps_range_end(), read_bitmaps_cleanup_on_error().
 
    ext2fs_rw_bitmaps(fs, flags, num_threads) splits the G block groups among n threads by the formula below
    (including the flex_bg rounding and the fall-backs to the sequential path), starts the threads and joins
@@ -10,20 +10,40 @@
    thread-safe) and releases the mutex.  Tail problems are collected in a per-thread flag word and or-ed
    together after the join.
 
+   A bitmap that cannot be loaded (the block cannot be read: EXT2_ET_*_BITMAP_READ; its checksum is wrong:
+   EXT2_ET_*_BITMAP_CSUM_INVALID) ends the thread that met it at once with that error (`goto cleanup`); the other
+   threads go on.  The main thread joins the threads in index order (JoinStep: `if (rc && !retval) retval = rc`,
+   the first error is kept) and then either finishes the load (read_bitmaps_range_end: tail flags into fs->flags,
+   bitmaps stay installed) or, if any thread failed, frees both bitmaps (read_bitmaps_cleanup_on_error:
+   fs->block_map = fs->inode_map = 0, fs->flags untouched) and returns the error.  The sequential path
+   (read_bitmaps_range) is the same protocol with one "thread", the caller.
+
+   The property: whatever the number of threads and the interleaving, the outcome (error returned, bitmaps
+   installed or absent, their content, the tail flags) equals SeqOutcome(par), the outcome of the single-threaded
+   load of the same image -- in particular the call fails iff some thread failed.
+
    The update is modelled as a non-atomic read-modify-write of `shared` (Enter takes a snapshot, Leave writes
    snapshot + the group), so that a missing lock loses updates.  UseLock = FALSE is the mutant.
+   DevJoinLastWins = TRUE is a deviating join loop that keeps the result of the thread joined last.
 
    par (a variable so that the trace specification can validate loads of many geometries in one run):
      G groups, nreq requested threads, flex = 2^s_log_groups_per_flex, hasflex, chthr = CHANNEL_FLAGS_THREADS on
-     the channel, kinds = number of bitmap kinds loaded per group (1 or 2), bad = groups with a tail problem. *)
+     the channel, kinds = number of bitmap kinds loaded per group (1 or 2), bad = groups with a tail problem,
+     fail = the <<group, kind>> pairs whose on-disk bitmap cannot be loaded, codes = the error each of them gives. *)
 EXTENDS Integers, FiniteSets, TLC
 CONSTANTS MaxT,       \* thread indices 0..MaxT-1 exist
-          UseLock
-VARIABLES par, th, lock, inside, shared, cnt, flags, joined
-vars == <<par, th, lock, inside, shared, cnt, flags, joined>>
+          UseLock,
+          DevJoinLastWins
+VARIABLES par, th, lock, inside, shared, cnt, flags, joined,
+          jn,         \* join loop: index of the next thread to join
+          rv,         \* join loop: `retval` (None = 0; otherwise the pair whose error is being returned)
+          tacc,       \* join loop: tail_flags accumulated
+          maps        \* the bitmaps are installed in fs->block_map / fs->inode_map
+vars == <<par, th, lock, inside, shared, cnt, flags, joined, jn, rv, tacc, maps>>
 
 Thr == 0..(MaxT - 1)
 Min(a, b) == IF a < b THEN a ELSE b
+None == <<-1, -1>>
 
 (* --- the partition computed by ext2fs_rw_bitmaps ------------------------------------------------------- *)
 NCap(p) == Min(p.nreq, p.G)                                         \* if (num_threads > group_desc_count) ...
@@ -34,28 +54,42 @@ First(p, i) == IF Sequential(p) \/ i = 0 THEN 0 ELSE Avg(p) * i + 1
 Last(p, i) == IF Sequential(p) \/ i = N(p) - 1 THEN p.G - 1 ELSE Avg(p) * (i + 1)
 Owns(p, i, g) == i < N(p) /\ First(p, i) <= g /\ g <= Last(p, i)
 PartitionExactFor(p) == \A g \in 0..(p.G - 1) : Cardinality({i \in 0..(N(p) - 1) : Owns(p, i, g)}) = 1
+Owner(p, g) == CHOOSE i \in 0..(N(p) - 1) : Owns(p, i, g)
 
-Idle == [st |-> "idle", g |-> 0, k |-> 0, tmp |-> {}, tf |-> FALSE]
+(* --- the outcome of the single-threaded load: the first pair (group order, block before inode) that cannot be
+       loaded decides ---------------------------------------------------------------------------------------- *)
+Before(x, y) == x[1] < y[1] \/ (x[1] = y[1] /\ x[2] <= y[2])
+MinFail(p) == IF p.fail = {} THEN None ELSE CHOOSE x \in p.fail : \A y \in p.fail : Before(x, y)
+SeqOutcome(p) == [rv |-> MinFail(p), maps |-> p.fail = {}, flags |-> (p.fail = {} /\ p.bad # {})]
+
+Idle == [st |-> "idle", g |-> 0, k |-> 0, tmp |-> {}, tf |-> FALSE, err |-> None]
 Begin(p) == /\ par = p /\ th = [i \in Thr |-> Idle] /\ lock = -1 /\ inside = 0 /\ shared = {}
             /\ cnt = [x \in (0..(p.G - 1)) \X (0..(p.kinds - 1)) |-> 0] /\ flags = FALSE /\ joined = FALSE
+            /\ jn = 0 /\ rv = None /\ tacc = FALSE /\ maps = TRUE            \* read_bitmaps_range_prepare allocated them
+jvars == <<jn, rv, tacc, maps>>
 
 (* --- one thread: read_bitmaps_range_start(fs, flags, first, last, mutex, &tail_flags) --------------------- *)
 Start(i) == /\ i < N(par) /\ th[i].st = "idle" /\ ~joined
             /\ th' = [th EXCEPT ![i] = [Idle EXCEPT !.g = First(par, i),
                                                      !.st = IF First(par, i) > Last(par, i) THEN "end" ELSE "run"]]
-            /\ UNCHANGED <<par, lock, inside, shared, cnt, flags, joined>>
-\* io_channel_read_blk64 + checksum + tail check: no shared state, only the thread's own tail_flags
+            /\ UNCHANGED <<par, lock, inside, shared, cnt, flags, joined, jvars>>
+Pair(i) == <<th[i].g, th[i].k>>
+\* io_channel_read_blk64 + checksum + tail check: no shared state, only the thread's own retval / tail_flags
 Read(i) == /\ th[i].st = "run"
-           /\ th' = [th EXCEPT ![i].st = "rd", ![i].tf = @ \/ (th[i].g \in par.bad)]
-           /\ UNCHANGED <<par, lock, inside, shared, cnt, flags, joined>>
+           /\ th' = IF Pair(i) \in par.fail
+                    THEN [th EXCEPT ![i].st = "end", ![i].err = Pair(i)]                    \* retval = ...; goto cleanup
+                    ELSE [th EXCEPT ![i].st = "rd", ![i].tf = @ \/ (th[i].g \in par.bad)]
+           /\ UNCHANGED <<par, lock, inside, shared, cnt, flags, joined, jvars>>
 \* unix_pthread_mutex_lock(mutex); first half of ext2fs_set_*_bitmap_range2.  `from`: the state the thread must be in
+\* ("run": the successful Read is taken in the same step -- the form the trace specification uses)
 EnterFrom(i, from) ==
    /\ th[i].st = from
+   /\ (from = "run") => Pair(i) \notin par.fail
    /\ (UseLock /\ ~Sequential(par)) => lock = -1
    /\ lock' = IF UseLock /\ ~Sequential(par) THEN i ELSE lock
    /\ inside' = inside + 1
    /\ th' = [th EXCEPT ![i].st = "in", ![i].tmp = shared, ![i].tf = @ \/ (from = "run" /\ th[i].g \in par.bad)]
-   /\ UNCHANGED <<par, shared, cnt, flags, joined>>
+   /\ UNCHANGED <<par, shared, cnt, flags, joined, jvars>>
 Enter(i) == EnterFrom(i, "rd")
 \* second half of the update; unix_pthread_mutex_unlock(mutex); next group
 Leave(i) == /\ th[i].st = "in"
@@ -67,23 +101,63 @@ Leave(i) == /\ th[i].st = "in"
                         IF t.k + 1 < par.kinds THEN [t EXCEPT !.k = @ + 1, !.st = "run"]
                         ELSE IF t.g + 1 > Last(par, i) THEN [t EXCEPT !.st = "end"]
                         ELSE [t EXCEPT !.g = @ + 1, !.k = 0, !.st = "run"]]
-            /\ UNCHANGED <<par, flags, joined>>
+            /\ UNCHANGED <<par, flags, joined, jvars>>
 End(i) == /\ th[i].st = "end" /\ th' = [th EXCEPT ![i].st = "done"]
-          /\ UNCHANGED <<par, lock, inside, shared, cnt, flags, joined>>
-\* pthread_join of all threads; tail_flags |= ...; read_bitmaps_range_end
-Join == /\ ~joined /\ \A i \in 0..(N(par) - 1) : th[i].st = "done"
-        /\ joined' = TRUE /\ flags' = \E i \in 0..(N(par) - 1) : th[i].tf
-        /\ UNCHANGED <<par, th, lock, inside, shared, cnt>>
+          /\ UNCHANGED <<par, lock, inside, shared, cnt, flags, joined, jvars>>
+\* the failing Read and the end of the thread in one step (the form the trace specification uses)
+FailEnd(i) == /\ th[i].st = "run" /\ Pair(i) \in par.fail
+              /\ th' = [th EXCEPT ![i].st = "done", ![i].err = Pair(i)]
+              /\ UNCHANGED <<par, lock, inside, shared, cnt, flags, joined, jvars>>
+
+(* --- the main thread: for (i = 0; i < num_threads; i++) { pthread_join; if (rc && !retval) retval = rc; ... } *)
+JoinOne(r, e) == IF DevJoinLastWins THEN e ELSE IF r = None THEN e ELSE r
+JoinStep == /\ ~joined /\ jn < N(par) /\ th[jn].st = "done"
+            /\ rv' = JoinOne(rv, th[jn].err) /\ tacc' = (tacc \/ th[jn].tf) /\ jn' = jn + 1
+            /\ UNCHANGED <<par, th, lock, inside, shared, cnt, flags, joined, maps>>
+\* if (retval == 0) read_bitmaps_range_end(); if (retval) read_bitmaps_cleanup_on_error();
+Finish == /\ ~joined /\ jn = N(par) /\ joined' = TRUE
+          /\ IF rv = None THEN flags' = tacc /\ maps' = TRUE
+                          ELSE flags' = flags /\ maps' = FALSE
+          /\ UNCHANGED <<par, th, lock, inside, shared, cnt, jn, rv, tacc>>
+\* the whole join loop at once (the trace specification: the loop is not logged)
+RECURSIVE JoinUpTo(_, _)
+JoinUpTo(t, n) == IF n = 0 THEN None ELSE JoinOne(JoinUpTo(t, n - 1), t[n - 1].err)
+JoinAll == /\ ~joined /\ jn = 0 /\ \A i \in 0..(N(par) - 1) : th[i].st = "done"
+           /\ rv' = JoinUpTo(th, N(par)) /\ jn' = N(par) /\ tacc' = \E i \in 0..(N(par) - 1) : th[i].tf
+           /\ joined' = TRUE /\ maps' = (rv' = None) /\ flags' = IF rv' = None THEN tacc' ELSE flags
+           /\ UNCHANGED <<par, th, lock, inside, shared, cnt>>
 
 ThreadStep(i) == Start(i) \/ Read(i) \/ Enter(i) \/ Leave(i) \/ End(i)
-Next == (\E i \in Thr : ThreadStep(i)) \/ Join
+Next == (\E i \in Thr : ThreadStep(i)) \/ JoinStep \/ Finish
 
 (* --- model checking: one geometry per initial state ----------------------------------------------------- *)
-CONSTANTS Gs, Ns, Flexes, Kinds, BadSets
-Params == [G : Gs, nreq : Ns, flex : Flexes, hasflex : BOOLEAN, chthr : {TRUE}, kinds : Kinds, bad : BadSets]
-Init == \E p \in Params : (\A g \in p.bad : g < p.G) /\ N(p) <= MaxT /\ Begin(p)
+CONSTANTS Gs, Ns, Flexes, Kinds, BadSets,
+          FailModes         \* subset of {"none", "one", "two"}: no bitmap fails / one pair / two pairs
+\* The boundary catalogue of damaged groups: the first and the last group of the first, a middle and the last thread
+\* (the conformance part enumerates the damaged images from the same operator, see Emit_BitmapLoad)
+PosThreads(p) == {0, N(p) \div 2, N(p) - 1}
+FailPos(p) == UNION {IF First(p, i) <= Last(p, i) THEN {First(p, i), Last(p, i)} ELSE {} : i \in PosThreads(p)}   \* (a thread's range may be empty)
+PosClass(p, g) == LET i == Owner(p, g) IN IF i = 0 THEN "first" ELSE IF i = N(p) - 1 THEN "last" ELSE "middle"
+FailChoices(p) ==
+   (IF "none" \in FailModes THEN {{}} ELSE {})
+   \cup (IF "one" \in FailModes THEN {{<<g, k>>} : g \in FailPos(p), k \in 0..(p.kinds - 1)} ELSE {})
+   \cup (IF "two" \in FailModes
+         THEN {{x \in S : x[1] < p.G} : S \in
+              {{<<Last(p, 0), 0>>, <<First(p, N(p) - 1), p.kinds - 1>>},           \* first and last thread fail
+               {<<First(p, N(p) \div 2), p.kinds - 1>>, <<Last(p, N(p) - 1), 0>>},  \* middle and last thread
+               {<<First(p, 0), p.kinds - 1>>, <<Last(p, 0), 0>>}}} \ {{}}          \* twice in the first thread
+         ELSE {})
+\* what makes a bitmap unloadable in the conformance part (harness/bmload.c) and the bitmap kind it hits (0 block, 1 inode;
+\* "trunc" cuts the image before the group's first bitmap block: every bitmap block behind the cut is unreadable)
+DamageKinds == {"bcsum", "icsum", "brd", "ird", "trunc"}
+NeedsCsum(d) == d \in {"bcsum", "icsum"}
+Base == [G : Gs, nreq : Ns, flex : Flexes, hasflex : BOOLEAN, chthr : {TRUE}, kinds : Kinds, bad : BadSets]
+WithFail(b, f) == [G |-> b.G, nreq |-> b.nreq, flex |-> b.flex, hasflex |-> b.hasflex, chthr |-> b.chthr,
+                   kinds |-> b.kinds, bad |-> b.bad, fail |-> f, codes |-> [x \in f |-> 1]]
+Init == \E b \in Base : /\ (\A g \in b.bad : g < b.G) /\ N(b) <= MaxT
+                        /\ \E f \in FailChoices(b) : Begin(WithFail(b, f))
 Spec == Init /\ [][Next]_vars
-FairSpec == Spec /\ \A i \in Thr : WF_vars(ThreadStep(i)) /\ WF_vars(Join)
+FairSpec == Spec /\ \A i \in Thr : WF_vars(ThreadStep(i)) /\ WF_vars(JoinStep) /\ WF_vars(Finish)
 PartOnly == Init /\ [][FALSE]_vars              \* only the initial states: the partition formula over a large parameter space
 
 (* --- properties ------------------------------------------------------------------------------------------ *)
@@ -92,8 +166,12 @@ MutualExclusion == inside <= 1                                         \* at mos
 LockHeld == \A i \in Thr : (th[i].st = "in" /\ UseLock /\ ~Sequential(par)) => lock = i
 LoadedOnce == \A x \in DOMAIN cnt : cnt[x] <= 1
 AllPairs == (0..(par.G - 1)) \X (0..(par.kinds - 1))
-ResultScheduleIndependent ==                                           \* whatever the interleaving, after the join:
-   joined => /\ shared = AllPairs /\ \A x \in AllPairs : cnt[x] = 1     \*   every group's bits are in the bitmap, loaded once
-             /\ flags = (par.bad # {})                                  \*   the tail flags are the or over all groups
+FailsIffThreadFailed ==                                                \* the call fails iff some thread failed
+   joined => ((rv # None) <=> (\E i \in 0..(N(par) - 1) : th[i].err # None))
+ResultScheduleIndependent ==                                           \* whatever the interleaving and the thread count, after the call:
+   joined => /\ [rv |-> rv, maps |-> maps, flags |-> flags] = SeqOutcome(par)   \*   error, presence of the bitmaps and tail flags as single-threaded
+             /\ maps => /\ shared = AllPairs                                     \*   every group's bits are in the bitmap,
+                        /\ \A x \in AllPairs : cnt[x] = 1                         \*   loaded once
+NeverLoadsFailing == \A x \in par.fail : cnt[x] = 0                    \* bits of a bitmap that failed verification are never installed
 Termination == <>joined
 =============================================================================
